@@ -51,6 +51,8 @@ def build_source(src, holder):
         return cb.Environments.from_lambda(kw["n"], lam_context, lam_actions, lam_reward, kw["seed"])
     if kind == "supervised_xy":
         Xs = [list(x) for x in kw["X"]]
+        if kw.get("mixed_rows"):
+            Xs[0] = tuple(Xs[0])          # an immutable container first, plain lists after it
         Ys = list(kw["Y"])
         holder["X"], holder["Y"] = Xs, Ys
         return cb.Environments.from_supervised(Xs, Ys, label_type=kw.get("label_type"))
@@ -189,7 +191,8 @@ def gen_src(rng):
         w = len(Xs[0])
         Xs = [x[:w] + [0] * (w - len(x)) for x in Xs]
         Ys = [round(rng.random(), 2) if reg else rng.choice(["a", "b", "c"]) for _ in range(m)]
-        return ["supervised_xy", {"X": Xs, "Y": Ys, "label_type": "r" if reg else weighted(rng, [("c", 2), (None, 1)])}]
+        return ["supervised_xy", {"X": Xs, "Y": Ys, "label_type": "r" if reg else weighted(rng, [("c", 2), (None, 1)]),
+                                  "mixed_rows": rng.random() < 0.3}]
     if k == "supervised_csv":
         m = max(1, n)
         lines = ["f1,f2,lab"] + [f"{rng.randrange(9)},{round(rng.random(), 2)},{rng.choice(['x', 'y', 'z'])}" for _ in range(m)]
